@@ -1,4 +1,138 @@
-/-! Line-protocol driver for property C11 (stub until the model exists). -/
+import CprocVerif.Model.PPLine
+import CprocVerif.Spec.Presumed
+
+/-! Line-protocol driver for property C11 (model of the location bookkeeping of scan.c + pp.c,
+and the declarative presumed-location spec).
+
+One output line per input line (input protocol of `harness/scan_h.c`):
+* `pp <hex>` / `ppnl <hex>` (without / with `PPNEWLINE`) →
+      `<tok> <tok> … [!<err>] | <spec> <spec> … | <dir> <dir> …`
+  `<tok>`  = `<kind number>:<lit hex | ->:<file>:<line>.<col>:<space 0|1>`  (as the harness prints;
+             `<file>` is `=` for `in.c`, else hex; `TOTHER` prints one byte of its spelling)
+  `<err>`  = `<file>:<line>.<col>:<what>` with `<what>` one of `scan.<errkind>`,
+             `expected.<kind number>.<afterHash|afterLine|afterDirective>`, `notimpl.<hex name>`,
+             `invalid.<hex name>`, `unmodelled`, `fuel`; followed by `:<offset>.<kind number>` of the
+             token whose location was passed to `error()` when there is one
+  `<spec>` = `<offset>:<file>:<line>.<col>` — for each delivered token its byte offset and what
+             `Spec/Presumed.lean` says about that offset, given the line directives `<dir>`
+  `<dir>`  = `<endOff>:<line>:<file hex | ->`
+  Line numbers are printed modulo 2^64 (`size_t` wrap-around of the C code).
+* `raw <hex>` → the tokens of `Scan.tokensP` in the same token format (file always `=`)
+* anything else → `bad-op`
+-/
+
+open CprocVerif CprocVerif.Scan CprocVerif.PPLine CprocVerif.Gen.TokenKinds
+
+def hexDigit (c : Char) : Option Nat :=
+  if '0' ≤ c ∧ c ≤ '9' then some (c.toNat - '0'.toNat)
+  else if 'a' ≤ c ∧ c ≤ 'f' then some (c.toNat - 'a'.toNat + 10)
+  else none
+
+def parseHex (s : String) : Option (List UInt8) :=
+  let rec go : List Char → List UInt8 → Option (List UInt8)
+    | [], acc => some acc.reverse
+    | [_], _ => none
+    | a :: b :: r, acc =>
+      match hexDigit a, hexDigit b with
+      | some x, some y => go r ((x * 16 + y).toUInt8 :: acc)
+      | _, _ => none
+  go s.toList []
+
+def hexOf (bs : List UInt8) : String :=
+  let d (n : Nat) : Char := if n < 10 then Char.ofNat (48 + n) else Char.ofNat (87 + n)
+  String.ofList (bs.foldr (fun b acc => d (b.toNat / 16) :: d (b.toNat % 16) :: acc) [])
+
+def inC : List UInt8 := b!"in.c"
+
+def showFile (f : List UInt8) : String := if f = inC then "=" else hexOf f
+
+def wrap (n : Nat) : Nat := n % 2 ^ 64
+
+def errName : ErrKind → String
+  | .hexEscape => "hexEscape" | .escape => "escape" | .nlChar => "nlChar" | .nulChar => "nulChar"
+  | .eofChar => "eofChar" | .nlStr => "nlStr" | .nulStr => "nulStr" | .eofStr => "eofStr"
+  | .eofComment => "eofComment" | .fuel => "fuel"
+
+def showTok (t : PTok) : String :=
+  let lit := match t.lit with
+    | none => "-"
+    | some l => if t.kind = Kind.TOTHER then hexOf (l.take 1) else hexOf l
+  s!"{t.kind.toNat}:{lit}:{showFile t.file}:{wrap t.line}.{t.col}:{if t.space then 1 else 0}"
+
+def ctxName : Ctx → String
+  | .afterHash => "afterHash" | .afterLine => "afterLine" | .afterDirective => "afterDirective"
+
+def showKind : PErrKind → String
+  | .scan k => "scan." ++ errName k
+  | .expected w c => s!"expected.{w.toNat}.{ctxName c}"
+  | .notImplemented n => "notimpl." ++ hexOf n
+  | .invalidDirective n => "invalid." ++ hexOf n
+  | .unmodelled => "unmodelled"
+  | .fuel => "fuel"
+
+def showErr (e : PErr) : String :=
+  let base := s!"!{showFile e.file}:{wrap e.line}.{e.col}:{showKind e.kind}"
+  match e.tok with
+  | none => base
+  | some t => base ++ s!":{t.off}.{t.kind.toNat}"
+
+def toDir (d : Nat × Nat × Option (List UInt8)) : Spec.Presumed.LineDir := ⟨d.1, d.2.1, d.2.2⟩
+
+def showSpec (text : List UInt8) (dirs : List Spec.Presumed.LineDir) (t : PTok) : String :=
+  let f := Spec.Presumed.presumedFile inC dirs t.off
+  let l := Spec.Presumed.presumedLine text dirs t.off
+  let c := Spec.Presumed.column text t.off
+  s!"{t.off}:{showFile f}:{wrap l}.{c}"
+
+def showDir (d : Nat × Nat × Option (List UInt8)) : String :=
+  s!"{d.1}:{wrap d.2.1}:" ++ (match d.2.2 with | none => "-" | some f => "h" ++ hexOf f)
+
+def showRun (text : List UInt8) (r : Run) : String :=
+  let toks := " ".intercalate (r.toks.map showTok)
+  let toks := match r.err with
+    | none => toks
+    | some e => if toks.isEmpty then showErr e else toks ++ " " ++ showErr e
+  let dirs := r.dirs.map toDir
+  let spec := " ".intercalate (r.toks.map (showSpec text dirs))
+  let ds := " ".intercalate (r.dirs.map showDir)
+  toks ++ " | " ++ spec ++ " | " ++ ds
+
+def showRawTok (t : Token) : String :=
+  let lit := match t.lit with
+    | none => "-"
+    | some l => if t.kind = Kind.TOTHER then hexOf (l.take 1) else hexOf l
+  s!"{t.kind.toNat}:{lit}:=:{t.loc.line}.{t.loc.col}:{if t.space then 1 else 0}"
+
+def showRaw (r : List Token × Option Err) : String :=
+  let toks := " ".intercalate (r.1.map showRawTok)
+  match r.2 with
+  | none => toks
+  | some e => toks ++ s!" !=:{e.loc.line}.{e.loc.col}:scan.{errName e.kind}"
+
+def step (line : String) : String :=
+  let go (op : String) (bs : List UInt8) : String :=
+    if op = "pp" then showRun bs (run false inC bs)
+    else if op = "ppnl" then showRun bs (run true inC bs)
+    else if op = "raw" then showRaw (tokensP bs)
+    else "bad-op"
+  match line.trimAscii.toString.splitOn " " with
+  | [op] => go op []
+  | [op, h] =>
+    match parseHex h with
+    | some bs => go op bs
+    | none => "bad-op"
+  | _ => "bad-op"
+
+partial def loop (stdin stdout : IO.FS.Stream) : IO Unit := do
+  let line ← stdin.getLine
+  if line.isEmpty then
+    return ()
+  stdout.putStrLn (step line)
+  loop stdin stdout
+
 def main (_args : List String) : IO UInt32 := do
-  IO.eprintln "drv_c11: no model yet"
-  return 2
+  let stdin ← IO.getStdin
+  let stdout ← IO.getStdout
+  loop stdin stdout
+  stdout.flush
+  return 0
